@@ -67,6 +67,12 @@ def WF : Msg → Prop
   | .message m => m.versions ≠ [] ∧ (∀ v ∈ m.versions, sepByte ∉ v ∧ utf8Valid v = true) ∧
       (joined m).length ≤ 255
 
+/-- run-time test of `WF` (see `wfBool_iff`) -/
+def wfBool : Msg → Bool
+  | .request => true
+  | .message m => !m.versions.isEmpty && m.versions.all (fun v => !v.contains sepByte && utf8Valid v) &&
+      decide ((joined m).length ≤ 255)
+
 /-- two consoles, the second version text with 2-, 3- and 4-byte characters ("1.é€😀") -/
 example : WF (.message ⟨true, [[0x31, 0x2E, 0x32], [0x31, 0x2E, 0xC3, 0xA9, 0xE2, 0x82, 0xAC, 0xF0, 0x9F, 0x98, 0x80]]⟩) := by
   refine ⟨by decide, ?_, by decide⟩
